@@ -205,12 +205,19 @@ def run_one(ch, cfg):
             replies = []
             done = {}
 
-            def ask():
+            impatient = ch.draw(3, "client-gives-up-on-the-repair-request") == 1
+
+            def ask(gives_up=False):
                 c = w.net.connect()
                 if c is None:
                     return None
                 c.send(_json.dumps({"command": "getPubKey", "keyId": "m/44'/0'/0'/0/0",
                                     "version": 5}).encode() + b"\n")
+                if gives_up:
+                    # the client times out and resets its connection while the device is busy: the
+                    # reply cannot be written - the change attempt still has to end the manager
+                    c.reset()
+                    return b"(client gone)"
                 return c.drain()
 
             def client():
@@ -222,7 +229,7 @@ def run_one(ch, cfg):
                 if link.open_handle is not None:
                     link.open_handle.opened = False
                 replies.append(ask())          # link failure -> device error, repair pending
-                replies.append(ask())          # repair: bring-up through the bootloader
+                replies.append(ask(gives_up=impatient))    # repair: bring-up through the bootloader
                 attempted = any(kd == "newpin" for kd, _ in dev.pins_seen[seen_before:])
                 r4 = ask()                     # is the manager still serving afterwards?
                 done["attempted_before_probe"] = attempted
